@@ -161,7 +161,7 @@ class Revision:
     def __init__(self, objects, form="table", objstm=(), free=(), eol=b"\n", root=None, info=None,
                  trailer_extra=None, gens=None, xref_w=(1, 4, 2), split_index=False, objstm_id=None, xref_id=None,
                  pad_before=b"", omit_index=False, trailer_style=0, xref_pack="flate", objstm_pack="flate",
-                 hybrid_free=False):
+                 hybrid_free=False, drop_info=False):
         self.objects = dict(objects)          # objid -> value
         self.form = form                      # 'table' | 'stream' | 'hybrid'
         self.objstm = list(objstm)            # objids stored in this revision's object stream (not for 'table')
@@ -179,6 +179,7 @@ class Revision:
         self.trailer_style = trailer_style    # table: 0 `trailer` EOL dict; 1 `trailer <<...>>` on one line; 2 `trailer <<` EOL entries EOL `>>`
         self.xref_pack = xref_pack            # xref stream payload: 'flate' | 'png' (Flate + /Predictor 12, as most writers do) | 'none'
         self.objstm_pack = objstm_pack        # object stream payload: 'flate' | 'none' | 'hex' (ASCIIHex)
+        self.drop_info = drop_info            # this revision's trailer carries no /Info although an older one does
         self.hybrid_free = hybrid_free        # hybrid: the classic table lists the objects kept in object streams as FREE entries
                                               # (ISO 32000-1 7.5.8.4: hidden from readers that do not know XRefStm)
         self.omit_index = omit_index          # xref stream: leave /Index out when it equals the default [0 Size]
@@ -254,7 +255,7 @@ def build(revisions, header=b"%PDF-1.7\n%\xe2\xe3\xcf\xd3\n", transform_for=None
         trailer.update(rev.trailer_extra)
         if root is not None:
             trailer["Root"] = root
-        if infor is not None:
+        if infor is not None and not (rev.drop_info and rev.info is None):
             trailer["Info"] = infor
         if prev is not None:
             trailer["Prev"] = prev
